@@ -339,10 +339,13 @@ static void program(const Plan *pl) {
             XSock *cli = x_connect(addr, cm, true, strf("cli%d", sidx));
             K->on_lib_fopen = nullptr;
             t->netns = saved;
+            if (st.cli_ns) K->remove_path("/run/netns/blue");   // (the name is looked up when the socket is created; later set-ups live in an unnamed namespace again)
             int cli_errno = errno;
             xcm_attr_map_destroy(cm);
             K->env["XCM_TLS_CERT"] = st.edit_before == 3 ? "/cert" : ddir;
             if (!cli->s) {
+                if (st.flips - flips_left > 0 && !cc.invalid)
+                    G->violation("C18.unusable_after_rewrite", "set-up %d: xcm_connect_a failed with %s; its credential files were rewritten %d time(s) while it loaded them, but held a complete, valid set (of one of two equivalent identities) at every instant", sidx, strerror(cli_errno), st.flips - flips_left);
                 if (cc.invalid && cli_errno != EINVAL) G->violation("C09.invalid_combination_errno", "xcm_connect_a with an invalid TLS policy combination (%d) failed with %s, expected EINVAL", cc.invalid, strerror(cli_errno));
                 else if (!cc.invalid && cli_errno != EPROTO) G->violation("HARNESS.tls_connect", "set-up %d: xcm_connect_a failed: %s", sidx, strerror(cli_errno));
                 continue;
